@@ -337,6 +337,17 @@ def run(ctx: Ctx, extended: bool = False) -> None:
             ctx.fail("specs", "nested_valid_iff", "nested validate accepts a value with a wrong-shaped leaf", {"spec": repr(outer)[:300]})
         except (ValueError, TypeError):
             pass
+        # structure must match exactly: a value with an extra field, or a missing one, is not a member
+        NT4 = collections.namedtuple("NT4", ["x", "y", "z", "extra"])
+        NT2x = collections.namedtuple("NT2x", ["x", "y"])
+        for label, bad in (("extra_field", NT4(g.x, g.y, g.z, jnp.zeros(()))), ("missing_field", NT2x(g.x, g.y)),
+                           ("extra_field_nested", g._replace(y=collections.namedtuple("NT3i", ["p", "q", "r"])(g.y.p, g.y.q, jnp.zeros(()))))):
+            ctx.evaluations += 1
+            try:
+                outer.validate(bad)
+                ctx.fail("specs", "nested_valid_iff", f"nested validate accepts a value with a different structure ({label})", {"spec": repr(outer)[:300], "label": label}, {"label": label})
+            except Exception:  # noqa: BLE001  (ValueError / TypeError / KeyError: any rejection is fine)
+                pass
         same = specs.Spec(NT3, "Outer", x=kids[2], y=specs.Spec(NT2, "Inner", p=kids[0], q=kids[1]), z=outer._specs["z"])
         lab, k2 = perturb(rng, kids[1])
         diff = specs.Spec(NT3, "Outer", x=kids[2], y=specs.Spec(NT2, "Inner", p=kids[0], q=k2), z=outer._specs["z"])
